@@ -28,9 +28,17 @@ def run(prop, tier):
         "register file state = Registers._values (dict keyed by RegisterName) with every stored value within its width (representation invariant, proved preserved by set)",
         "written values are arbitrary 64-bit two's complement integers (the property says 32-bit); wider Python ints are not covered",
         "snapshot contract: one TEMP register symbolic per work unit, the others concrete (from_registers forks on the truth value of every temp)",
-        "Rust LlamaState::set_reg/get_reg, pack_registers/unpack_registers: NOT proved (no Rust verifier); constants compared under C17",
+        "Rust LlamaState::set_reg/get_reg: NOT proved (no Rust verifier); a bounded stand-in runs the compiled code against the same contract; pack_registers/unpack_registers undecided, constants compared under C17",
     ]
-    v.bounded = [dict(part="Rust register file (state.rs) and snapshot.rs", bound="not run in this check", note="undecided; only table/constant agreement is decided (C17)")]
+    from props import rust_standin as RS
+    vec = dict(regs=RS.regs_vectors(tier))
+    res = RS.run(vec, ["regs"])
+    keep = (v.obligations, v.discharged)
+    v.absorb(RS.reports(res, vec, ["regs"]), known, expect_obligations=False)
+    v.obligations, v.discharged = keep
+    v.bounded = [RS.summarize(res, "regs", "LlamaState::set_reg/get_reg on the compiled crate: 3 prior files x 16 register names x 17 boundary values (0..0xFFFFFFFF), and all ordered pairs of "
+                              "writes over 16 names with 6 x 4 values (thorough: 10 x 10); after the writes every one of the 16 names is read; expected values from spec/regfile.py (the contract the Python half is proved against)"),
+                 dict(part="Rust snapshot.rs pack/unpack_registers", bound="not run", note="undecided; layout constants compared under C17")]
     rule = ("work unit = register name x API (enum / by-name / flag); prior file = arbitrary values within width, written value = arbitrary 64-bit; "
             "obligations: every stored base value == spec, invariant, frame, every get == spec; plus spec-level law per (written, read) pair, snapshot round trip, register blob layout")
     return v.finish(f"./check {prop} --tier {tier}", rule, tier)
